@@ -233,6 +233,10 @@ def write_evidence(pid, tier, seed, ev, out, wall):
         })
     for s in tres.get("samples", [])[:10]:
         samples.append(s)
+    if not samples:
+        # (engine-T parts that compare syntactically produce no per-obligation samples; the schema wants at least one)
+        samples.append({"engine": "summary", "programs": tres.get("programs", 0), "obligations": tres.get("obligations", 0),
+                        "note": "no per-obligation sample recorded in this run (syntactic comparison / restricted engines)"})
     level = prop["level"]
     cov = {
         "evaluations": n_harness + tres.get("obligations", 0) + (tres.get("programs", 0) if not tres.get("obligations", 0) else 0),
